@@ -97,6 +97,24 @@ def ok_condition(env, fn):
         tt = tt["recv"]
     if tt["k"] in ("call", "mcall") and not (tt["k"] == "ctor"):
         pc = And(pc, Atom("ok(%s)" % ctx.term(tt)))
+    # every OTHER way of returning Ok: `return Ok(..)` / `return <result expr>` anywhere in the body
+    alts = []
+    for r in ir.walk(fn.body, into_closures=False):
+        if r["k"] != "ret" or r.get("e") is None:
+            continue
+        e = r["e"]
+        et = ctx.term(e)
+        if et.startswith("Err(") or (e["k"] == "ctor" and e["path"].endswith("::Err")):
+            continue
+        rpc = flow.pathcond(r)
+        ee = e
+        while ee["k"] == "mcall" and ee["name"] in ("map_err",):
+            ee = ee["recv"]
+        if ee["k"] in ("call", "mcall"):
+            rpc = And(rpc, Atom("ok(%s)" % ctx.term(ee)))
+        alts.append(rpc)
+    if alts:
+        pc = Or(pc, *alts)
     return pc, t
 
 
@@ -362,4 +380,4 @@ def check(P, R, tier):
     # distinct-before-count accounting (C19.G1/G2: a rejected duplicate must not change what is assembled later)
     from ..common import fold
     fold(R, P, "c17", ("C17.O1", "C17.O2", "C17.O3", "C17.O4", "C17.O5", "C17.O6"), "C04.S5", 12)
-    fold(R, P, "c19", ("C19.G1", "C19.G2"), "C04.S5", 6)
+    fold(R, P, "c19", ("C19.G1", "C19.G2", "C19.G4"), "C04.S5", 8)
